@@ -39,7 +39,8 @@ EXPLANATION = (
     "exactly when it is the default, '/' substituted for an empty path; the ParsedURL fields "
     "must equal the same components. (N3) GeminiClient._get_single constructs the protocol with "
     "parsed.normalized and the server consults middleware with request.normalized_url, which "
-    "returns parsed_url.normalized."
+    "returns parsed_url.normalized. "
+    "(N4) upload() exchanges only the scheme prefix of the caller's URL (no unbounded str.replace on the wire URL)."
 )
 
 
